@@ -1,11 +1,13 @@
 package c12
 
 import (
+	"context"
 	"fmt"
 	"runtime/debug"
 	"testing"
 
 	"github.com/wader/fq/pkg/decode"
+	"github.com/wader/fq/verif/lib/fqx"
 	"github.com/wader/fq/verif/lib/harness"
 	"github.com/wader/fq/verif/lib/treegen"
 	"github.com/wader/fq/verif/lib/treeq"
@@ -60,6 +62,26 @@ func TestSeeds(t *testing.T) {
 					res.Failf("regression:path-with-empty-key", "%s | path_to_expr | expr_to_path = %s", showPath(pa), showPath(full[1]))
 				}
 			}
+		}
+	}
+	// a decoded document whose own keys are named like decode value keys: topath,
+	// root, parent, format_root ... read `._path` etc, which found the document's
+	// key (repaired in 12d2315a); the document below only has keys that the row
+	// query reaches through FUNCTIONS (._name / ._index are plain key lookups,
+	// where the value's own key wins by design)
+	for _, doc := range []string{
+		`{"_path":[9],"_root":1,"_parent":2,"_format":"x","_buffer_root":3,"_format_root":4,"_error":{"error":"e"},"_actual":5,"_sym":6,"_description":"d"}`,
+		`[{"_path":["a"],"_parent":null,"_root":null}]`,
+	} {
+		jtop, _, _ := fqx.Decode(context.Background(), []byte(doc), "json", false)
+		if jtop == nil {
+			res.Failf("harness:seed-shape", "json seed document does not decode: %s", doc)
+			continue
+		}
+		before := len(res.Fails)
+		checkTree(treegen.Build(jtop), 1, 1, res)
+		for i := before; i < len(res.Fails); i++ {
+			res.Fails[i].Sig = "regression:document-keys-shadow-decode-value-keys"
 		}
 	}
 	req := treegen.Req{Path: "seed:arrayroot-failing-callback", Format: "program"}
